@@ -299,6 +299,35 @@ def build():
             ),
         },
     ))
+    # ---- client side of the protocol: a request is one line "CMD:name:rtype\n" on the pipe.  The tracker reads LINES: a name holding a
+    # newline would arrive as two requests - the registered name is never tracked and the text after the newline is executed as a request
+    # of its own (REGISTER:<any path>: that path is deleted when the client exits).  "Malformed requests never make it delete a path that
+    # was not registered": what is written to the pipe for one call must be exactly one line.  The writer (_send) is inherited from
+    # multiprocessing.resource_tracker unless the class overrides it.
+    import ast as _ast
+    from pyvc.contracts import SourceModule as _SM
+    rt_cls = _SM.get(RT).classes.get("ResourceTracker")
+    own_send = rt_cls is not None and any(isinstance(n, _ast.FunctionDef) and n.name == "_send" for n in rt_cls.body)
+
+    def pipe_send(interp, recv, args, kwargs):
+        cmd, name, rtype = args
+        interp.ctx.check("%s/call._send.requires.one-request-is-one-line" % interp.contract.qualname, z3.Not(z3.Contains(to_term(name), z3.StringVal("\n"))),
+                         detail="the name is written verbatim into the line-based request pipe: with a newline in it the tracker reads two requests")
+        interp.ctx.events.append(("sent", cmd, name, rtype))
+        return None
+
+    p.models["super._send" if own_send else "ResourceTracker._send"] = pipe_send
+    p.models["ResourceTracker.ensure_running"] = lambda i, r, a, k: None
+    p.spec_funcs["one_line"] = lambda interp, s_: ops.mk_bool(z3.Not(z3.Contains(to_term(s_), z3.StringVal("\n"))))
+    p.spec_funcs["sent"] = lambda interp: tuple(e for e in interp.ctx.events if e[0] == "sent")
+    p.add(Contract(
+        RT, "ResourceTracker.maybe_unlink", props=["C20"], inline=({"_send"} if own_send else set()),
+        params=dict(self=ObjOf("ResourceTracker"), name=STR, rtype=OneOf("file", "folder")),
+        ensures={},
+        ensures_body={"exactly_this_request_is_sent": "len(sent()) == 1 and sent()[0][1] == 'MAYBE_UNLINK' and sent()[0][2] is name and sent()[0][3] is rtype"},
+        exsures={"ValueError": {"only_for_a_name_that_does_not_fit_on_one_line": "not one_line(name)", "nothing_was_sent": "len(sent()) == 0"}},
+    ))
+
     # ---- unlink_file: bounded retry loop (range(1, 11) is concrete: the loop is unrolled completely, every outcome sequence)
     def os_unlink(interp, args, kwargs):
         interp.ctx.events.append(("os.unlink", args[0]))
